@@ -2,7 +2,7 @@ import os
 ID = 'C05'
 LEVEL = 'proof'
 CONTRACT_MODULES = ['contracts.evals', 'contracts.forecasts']
-CONE = ['csep.utils.stats.poisson_joint_log_likelihood_ndarray', 'csep.core.poisson_evaluations._simulate_catalog', 'lemma:csep.core.forecasts.MarkedGriddedDataSet.marginals', 'csep.core.poisson_evaluations._poisson_likelihood_test', 'csep.core.poisson_evaluations.likelihood_test', 'csep.core.poisson_evaluations.conditional_likelihood_test', 'csep.core.poisson_evaluations.spatial_test', 'csep.core.poisson_evaluations.magnitude_test']
+CONE = ['csep.utils.stats.poisson_joint_log_likelihood_ndarray', 'csep.core.poisson_evaluations._simulate_catalog', 'lemma:csep.core.forecasts.MarkedGriddedDataSet.marginals', 'csep.core.poisson_evaluations._poisson_likelihood_test', 'csep.core.poisson_evaluations.poisson_spatial_likelihood', 'csep.core.poisson_evaluations.likelihood_test', 'csep.core.poisson_evaluations.conditional_likelihood_test', 'csep.core.poisson_evaluations.spatial_test', 'csep.core.poisson_evaluations.magnitude_test']
 ORACLE_MODULES = ['rt.oracles_eval', 'rt.oracles_contracts']
 BOUNDED = os.path.exists(os.path.join(os.path.dirname(__file__), '..', 'rt', 'bounded_C05.py'))
 FLOAT_MODEL = 'R; loggamma/log uninterpreted'
